@@ -85,7 +85,8 @@ fn observed_json(exec: &Execution) -> Value {
     })
 }
 
-async fn run_case(worker: &Worker, index: usize, case: &Case, want_sample: bool) -> CaseOutcome {
+/// `previous`: the case of the same kind this worker's long-lived adapter served before this one.
+async fn run_case(worker: &Worker, index: usize, case: &Case, previous: Option<&Case>, want_sample: bool) -> CaseOutcome {
     let mut counters = cases::counters(case);
     let mut exec = execute(worker, case).await;
     if exec.trouble.is_some() {
@@ -123,7 +124,29 @@ async fn run_case(worker: &Worker, index: usize, case: &Case, want_sample: bool)
             let r2 = again.result.as_ref().expect("no trouble implies a result");
             let (f2, _) = judge::judge(case, &again.requests, r2);
             let before = findings.len();
-            findings.retain(|f| f2.iter().any(|g| g.signature == f.signature));
+            let (kept, gone): (Vec<_>, Vec<_>) = std::mem::take(&mut findings).into_iter().partition(|f| f2.iter().any(|g| g.signature == f.signature));
+            findings = kept;
+            // what does not show on its own may be the history's: the adapter is long-lived, so the
+            // call before this one is played again in front of it
+            if !gone.is_empty()
+                && let Some(prev) = previous
+            {
+                let _ = execute(worker, prev).await;
+                let third = execute(worker, case).await;
+                if third.trouble.is_none()
+                    && let Some(r3) = third.result.as_ref()
+                {
+                    let (f3, _) = judge::judge(case, &third.requests, r3);
+                    for mut f in gone {
+                        if f3.iter().any(|g| g.signature == f.signature) {
+                            f.signature = format!("{}/after-the-call-before", f.signature);
+                            f.what = format!("{} - only when the same long-lived adapter has served the call before it (replayed: previous call, then this one)", f.what);
+                            f.detail = json!({"deviation": f.detail, "previous_case": prev});
+                            findings.push(f);
+                        }
+                    }
+                }
+            }
             if findings.len() != before {
                 inconclusive = Some(format!(
                     "case {index}: {} deviation(s) did not reproduce on an immediate re-run and were not reported",
@@ -179,13 +202,21 @@ fn worker_thread(
                 return;
             }
         };
+        let (mut last_discover, mut last_select): (Option<usize>, Option<usize>) = (None, None);
         loop {
             let i = next.fetch_add(1, Ordering::Relaxed);
             if i >= cases.len() {
                 break;
             }
             let small = (1..=3).contains(&cases::target_count(&cases[i]));
-            let o = run_case(&worker, i, &cases[i], small).await;
+            let is_discover = matches!(cases[i], Case::Discover { .. });
+            let previous = if is_discover { last_discover } else { last_select }.map(|j| &cases[j]);
+            let o = run_case(&worker, i, &cases[i], previous, small).await;
+            if is_discover {
+                last_discover = Some(i);
+            } else {
+                last_select = Some(i);
+            }
             out.lock().unwrap_or_else(|e| e.into_inner())[i] = Some(o);
         }
     });
